@@ -81,7 +81,12 @@ def _s2(program, res):
         n += 1
         g = cfgmod.build(m.node)
         sel = [x for x in g.stmt_nodes(("stmt", "return")) if "select(op.columns_produced())" in unparse(x.stmt)]
-        temps = [x for x in g.stmt_nodes(("stmt",)) if "with_columns(temp_v_columns)" in unparse(x.stmt)]
+        # the list of temporary column expressions: the variable handed to add_in_temp_columns(...) / appended with internal aliases
+        tvars = {c.args[0].id for c in ast.walk(m.node) if isinstance(c, ast.Call) and isinstance(c.func, ast.Attribute)
+                 and c.func.attr == "add_in_temp_columns" and c.args and isinstance(c.args[0], ast.Name)}
+        temps = [x for x in g.stmt_nodes(("stmt",)) if any(
+            isinstance(c, ast.Call) and isinstance(c.func, ast.Attribute) and c.func.attr == "with_columns" and c.args
+            and isinstance(c.args[0], ast.Name) and c.args[0].id in tvars for c in ast.walk(x.stmt))]
         joins = [x for x in g.stmt_nodes(("stmt",)) if ".join(" in unparse(x.stmt) and "suffix=" in unparse(x.stmt)]
         if temps:
             for t in temps:
